@@ -18,7 +18,7 @@ Tier == IOEnv.VERIF_TIER
 BinOps == <<"+", "-", "*", "&", "|", "^", "<<", ">>", "<", ">", "<=", ">=", "==", "!=", "&&">>
 UnOps == <<"~", "-", "!">>
 
-Observe(e) == << Decl(S64, "r", e), Decl(U64, "q", e), Set(Rdd, e) >>
+Observe(e) == << Decl(S64, "r", e), Decl(U64, "q", e) >>
 
 Prog2(id, lt, rt, e, tags, fam) ==
     [ id |-> id, tags |-> tags, fam |-> fam,
